@@ -34,6 +34,18 @@ import sim.c16_faults as S
 
 logging.disable(logging.CRITICAL)
 
+
+class FixedOs(object):
+    """replacement for the `os` module attribute of the vendor modules: deterministic challenges"""
+
+    @staticmethod
+    def urandom(n):
+        return bytes((0x35 + 7 * i) % 256 for i in range(n))
+
+
+nfc.tag.tt3_sony.os = FixedOs
+nfc.tag.tt2_nxp.os = FixedOs
+
 MSG = bytes.fromhex('d1010f5402656e') + b'hello, world'          # 19 byte NDEF text record
 MSG2 = bytes.fromhex('d101255402656e') + b'a longer text that needs more blocks.'  # 41 byte
 KEY = bytes(range(0x10, 0x20))
@@ -57,6 +69,18 @@ def canon(v):
     return v
 
 
+def raise_site(e):
+    """innermost frame inside the nfc package: file:function"""
+    site = '?'
+    tb = e.__traceback__
+    while tb is not None:
+        fn = tb.tb_frame.f_code.co_filename
+        if os.sep + 'nfc' + os.sep in fn:
+            site = '%s:%s' % (os.path.basename(fn), tb.tb_frame.f_code.co_name)
+        tb = tb.tb_next
+    return site
+
+
 def observe(fn):
     out = io.StringIO()
     try:
@@ -69,7 +93,7 @@ def observe(fn):
     except S.Runaway:
         return ('runaway',)
     except Exception as e:  # noqa
-        return ('exc', type(e).__name__, str(e)[:80])
+        return ('exc', type(e).__name__, str(e)[:80], raise_site(e))
     return ('val', canon(v))
 
 
@@ -98,46 +122,50 @@ def write_op(data):
     return op
 
 
-def t2_generic(npages=16, ndef=MSG, **kw):
+def t2_generic(npages=None, ndef=None, **kw):
     def make():
-        mem = S.t2_memory(npages, ndef, **kw)
+        mem = S.t2_memory(npages or VAR['t2pages'], MSG if ndef is None else ndef, **kw)
         mem[0] = 0x02          # not an NXP uid: generic Type2Tag
         return S.TlvWorld(S.T2TSim(mem), 'Type2Tag')
     return make
 
 
-def t2_nxp(npages, version, expect, ndef=MSG, blank=False):
+def t2_nxp(npages, version, expect, ndef=None, blank=False):
     def make():
-        mem = S.t2_memory(npages, ndef)
-        if blank:
-            mem[12:16] = bytes(4)
+        mem = S.t2_memory(npages, MSG if ndef is None else ndef)
+        if blank:           # capability container present, data area empty: no NDEF TLV
             mem[16:4 * npages] = bytes(4 * npages - 16)
         return S.TlvWorld(S.T2TSim(mem, version=version), expect)
     return make
 
 
-def t1_world(dynamic, expect, ndef=MSG, hr=None, blank=False):
+def t1_world(dynamic, expect, ndef=None, hr=None, blank=False):
     def make():
-        h, m = S.t1_memory(dynamic, ndef, blank)
+        h, m = S.t1_memory(dynamic, MSG if ndef is None else ndef, blank)
         return S.TlvWorld(S.T1TSim(hr or h, m), expect)
     return make
 
 
-def t3_world(nblocks=12, ndef=MSG2, **kw):
+VAR = {'nbr': 4, 'nbw': 2, 't2pages': 16, 'round': 0}      # varied in the thorough tier
+
+
+def t3_world(nblocks=12, ndef=None, **kw):
     def make():
-        return S.T3World(S.t3_blocks(nblocks, ndef, **kw))
+        k = dict(nbr=VAR['nbr'], nbw=VAR['nbw'])
+        k.update(kw)
+        return S.T3World(S.t3_blocks(nblocks, MSG2 if ndef is None else ndef, **k))
     return make
 
 
-def lite_world(lites, ndef=MSG, formatted=True, key=None):
+def lite_world(lites, ndef=None, formatted=True, key=None):
     def make():
-        return S.LiteWorld(lites, S.lite_init(ndef, formatted=formatted, key=key))
+        return S.LiteWorld(lites, S.lite_init(MSG if ndef is None else ndef, formatted=formatted, key=key))
     return make
 
 
-def t4_world(fwi, ndef=MSG, **kw):
+def t4_world(fwi, ndef=None, **kw):
     def make():
-        return S.T4World(S.t4_card(ndef, **kw), fwi=fwi)
+        return S.T4World(S.t4_card(MSG if ndef is None else ndef, **kw), fwi=fwi)
     return make
 
 
@@ -182,7 +210,6 @@ def scenarios():
     add('ntag213/ndef-read', 'tt2', n213, read_ndef, 'ndef')
     add('ntag213/protect', 'tt2', n213, lambda w: w.tag.protect(), 'protect')
     add('ntag213/dump', 'tt2', n213, lambda w: w.tag.dump(), 'dump', lists=True)
-    add('ntag213/signature', 'tt2', n213, lambda w: w.tag.signature, 'signature', fail=(32 * b'\0',))
     add('ntag213/format-blank', 'tt2', t2_nxp(45, v213, 'NTAG213', blank=True), lambda w: w.tag.format(), 'format')
     add('ntag215/format-blank', 'tt2', t2_nxp(135, bytes.fromhex('0004040201001103'), 'NTAG215', blank=True),
         lambda w: w.tag.format(), 'format', tier='thorough')
@@ -199,6 +226,13 @@ def scenarios():
     add('ntag213pw/protect-pw-ndef', 'tt2', pw, lambda w: w.tag.protect(b'abcdef', read_protect=True), 'protect')
     add('ntag213pw/authenticate', 'tt2', pw, lambda w: w.tag.authenticate(b''), 'authenticate')
     add('ntag213pw/authenticate-wrong', 'tt2', pw, lambda w: w.tag.authenticate(b'zzzzzz'), 'authenticate')
+    ulc = lambda: S.UlcWorld(MSG)  # noqa
+    add('ulc/ndef-read', 'tt2', ulc, read_ndef, 'ndef')
+    add('ulc/authenticate', 'tt2', ulc, lambda w: w.tag.authenticate(b''), 'authenticate')
+    add('ulc/authenticate-wrong', 'tt2', ulc, lambda w: w.tag.authenticate(b'0123456789abcdef'), 'authenticate')
+    add('ulc/protect-pw', 'tt2', ulc, lambda w: w.tag.protect(b'0123456789abcdef', protect_from=10), 'protect')
+    add('ulc/protect', 'tt2', ulc, lambda w: w.tag.protect(), 'protect')
+    add('ulc/dump', 'tt2', ulc, lambda w: w.tag.dump(), 'dump', lists=True)
     # ---- Type 1
     tz = t1_world(False, 'Topaz')
     add('topaz/ndef-read', 'tt1', tz, read_ndef, 'ndef')
@@ -229,6 +263,13 @@ def scenarios():
     add('t3/format-wipe', 'tt3', t3_world(6), lambda w: w.tag.format(version=0x10, wipe=0), 'format')
     add('t3/dump', 'tt3', g3, lambda w: w.tag.dump(), 'dump', lists=True)
     add('t3/protect', 'tt3', g3, lambda w: w.tag.protect(), 'protect')
+    fs = lambda: S.FelicaStandardWorld(S.t3_blocks(8, MSG2))  # noqa
+    add('felica-std/is_present', 'tt3', fs, lambda w: w.tag.is_present, 'is_present')
+    add('felica-std/ndef-read', 'tt3', fs, read_ndef, 'ndef')
+    add('felica-std/ndef-write', 'tt3', fs, write_op(MSG), 'NDEF.octets=', prep=prep_ndef)
+    add('felica-std/dump', 'tt3', fs, lambda w: w.tag.dump(), 'dump', lists=True)
+    add('felica-std/request_service', 'tt3', fs, lambda w: w.tag.request_service([nfc.tag.tt3.ServiceCode(0, 11)]),
+        'request_service')
     # ---- FeliCa Lite / Lite-S
     for nm, ls in (('lite', False), ('lites', True)):
         fw = lite_world(ls)
@@ -280,31 +321,367 @@ def run(scn, plan):
                 apdus=(w.apdus()[e0:] if hasattr(w, 'apdus') else None))
 
 
+def class_id(tag):
+    return '%s.%s' % (type(tag).__module__.split('.')[-1], type(tag).__name__)
+
+
+TYPE_ERR = {'tt1': 'Type1TagCommandError', 'tt2': 'Type2TagCommandError', 'tt3': 'Type3TagCommandError',
+            'tt4': 'Type4TagCommandError'}
+# exception classes that exist in the skeleton language (explicit raises); everything else is implicit
+SKEL_CLASSES = {'TagCommandError', 'Type1TagCommandError', 'Type2TagCommandError', 'Type3TagCommandError',
+                'Type4TagCommandError', 'ValueError', 'UnicodeError', 'RuntimeError', 'NotImplementedError',
+                'AttributeError', 'TypeError', 'AssertionError', 'KeyError', 'IndexError'}
+
+
+class Sweep(object):
+    def __init__(self, ck, mr):
+        self.ck, self.mr = ck, mr
+        self.model_q = {}          # model line -> (expected, sample case)
+        self.pred = {}             # (class, entry) -> set of class names
+        self.members = set()       # (class, entry, observed exception class)
+        self.nstrict = 0
+
+    # -------------------------------------------------------------- budgets (from the property's anchors)
+    def budget_table(self, scn, base):
+        """per fault-free position: attempts that remain for the command sent there, or None"""
+        out = {}
+        w = base['world']
+        if scn.ttype == 'tt4':
+            for i in range(len(base['trace'])):
+                out[i] = ('isodep', w.n_retry)
+            return out
+        for c in base['calls']:
+            n = 3 if scn.ttype in ('tt1', 'tt3') else 1 + c['retries']
+            for j in range(len(c['attempts'])):
+                out[c['first'] + j] = ('loop', n - j)
+        return out
+
+    def strict(self, scn, base, bud, plan):
+        """does the property demand the exact fault-free result for this injection?"""
+        pos, kind, burst, mode = plan
+        if kind not in 'TXP':
+            return False
+        cmd, outcome, rsp0 = base['trace'][pos]
+        if outcome != 'A':
+            return False           # a command that is not answered in the fault-free run (passive ack, probing)
+        b = bud.get(pos)
+        if b is None:
+            return False
+        if b[0] == 'isodep':
+            # ISO-DEP: timeouts and transmission errors are retried n_retry times (tt4.py:88-168, property C12);
+            # a ProtocolError reported by the driver is unrecoverable by the NFC Forum Digital protocol rules
+            return kind in 'TX' and burst <= b[1]
+        return burst < b[1]
+
+    # -------------------------------------------------------------- the monitor
+    def check(self, scn, base, bud, plan, r):
+        ck = self.ck
+        pos, kind, burst, mode = plan
+        cid = class_id(base['world'].tag)
+        o = r['obs']
+        case = {'scenario': scn.name, 'class': cid, 'method': scn.method, 'plan': list(plan), 'observed': list(map(str, o)),
+                'fault_free': str(base['obs'])[:200], 'command': base['trace'][pos][0].hex(),
+                'wire': ['%s:%s' % (t[0].hex()[:24], t[1]) for t in r['trace'][max(0, pos - 1):pos + burst + 3]]}
+        kname = S.KIND_NAME[kind]
+
+        def viol(what_key, text, site=None):
+            if site is not None:          # crash-type exceptions are identified by the raising function
+                ck.violation('%s@%s' % (what_key, site), text, case)
+            else:
+                ck.violation('%s:%s:%s:%s' % (what_key, cid, scn.method, kname), text, case)
+        # (1) never a raw CommunicationError or an unrelated exception
+        if o[0] == 'raw':
+            viol('raw-commerror', 'a raw nfc.clf.%s reaches the application' % o[1])
+        elif o[0] == 'runaway':
+            viol('unbounded', 'the operation does not stop repeating commands')
+        elif o[0] == 'exc':
+            if kind in 'TXP' or not (o[1] == 'RuntimeError' and o[2].startswith('unexpected ')):
+                viol('unrelated-exception:' + o[1], '%s (%s) reaches the application' % (o[1], o[2]), site=o[3])
+        elif o[0] == 'tce':
+            if o[1] != TYPE_ERR[scn.ttype]:
+                viol('wrong-error-class:' + o[1], 'TagCommandError of another tag type')
+            elif kind in 'TXP' and o[2] <= 0 and o[2] != S.KIND_ERRNO[kind]:
+                viol('reason-code:%d' % o[2], 'reason code %d does not match the persistent %s error' % (o[2], kname))
+        else:
+            v = o[1]
+            ok = (o == base['obs']) or any(v is f or (f is not None and f is not False and v == canon(f)) for f in scn.fail) \
+                or (scn.lists and isinstance(v, tuple) and all(isinstance(x, str) for x in v))
+            if not ok:
+                viol('undocumented-result', 'result is neither the fault-free one nor a documented failure value')
+        # (2) an answered command is never sent again (per tag-level command; Type 1/2/3)
+        for c in r['calls']:
+            att = c['attempts']
+            n = 3 if scn.ttype in ('tt1', 'tt3') else 1 + c['retries']
+            if 'A' in att[:-1]:
+                viol('resent-after-answer', 'a command that was answered is sent again')
+            if len(att) > max(n, 0):
+                viol('budget-exceeded', 'more attempts (%d) than the budget (%d)' % (len(att), n))
+        # (3) within the budget: exact result, same tag state, same answered commands
+        if self.strict(scn, base, bud, plan):
+            lost = [t[2] for t in r['trace'][pos:pos + burst] if t[1] == kind and t[2] is not None]
+            if mode == 'rsp' and len(r['trace']) > pos + burst and r['trace'][pos + burst][0] == base['trace'][pos][0] \
+                    and r['trace'][pos + burst][1] == 'A':
+                lost.append(r['trace'][pos + burst][2])      # the tag's answer to the re-sent command
+            idem = all(x == base['trace'][pos][2] for x in lost)
+            if not idem:
+                ck.count('retry-answered-differently-by-tag')
+                return
+            self.nstrict += 1
+            if o != base['obs']:
+                viol('not-survived', 'a burst of %d %s error(s) within the budget changes the result' % (burst, kname))
+            elif r['memory'] != base['memory']:
+                viol('tag-state-differs', 'burst within the budget: result as fault-free but the tag memory differs')
+            elif scn.ttype == 'tt4':
+                if r['apdus'] != base['apdus']:
+                    viol('apdu-sequence-differs', 'burst within the budget: the card executed another APDU sequence')
+            else:
+                a1 = [c for (c, a) in r['delivered'] if a]
+                a0 = [c for (c, a) in base['delivered'] if a]
+                if a1 != a0:
+                    viol('answered-sequence-differs', 'burst within the budget: the sequence of answered commands differs')
+        # bookkeeping for the correspondences
+        if o[0] in ('tce', 'exc') and o[1] in SKEL_CLASSES:
+            self.members.add((cid, scn.method, o[1], kind in 'TXP'))
+        for c in r['calls']:
+            self.model_call(scn, c, case)
+
+    # -------------------------------------------------------------- correspondence with the Retry model
+    def model_call(self, scn, c, case):
+        other = {'B': 'O', 'C': 'O', 'b': 'o', 'c': 'o', 's': 'T'}     # every other class is FOther; silence = timeout
+        letters = ''.join(other.get(a, a) for a in c['attempts'])
+        line = 'retry %s 1 %d %d %s' % (scn.ttype, c['retries'], 1 if c['present'] else 0, (letters + 'A') if letters else 'A')
+        if c['res'][0] == 'ok':
+            res = 'ok'
+        elif c['res'][0] == 'tce':
+            res = 'ok' if (c['res'][1] > 0 and 'A' in c['attempts']) else 'err TagCommandError:%d' % c['res'][1]
+        else:
+            res = 'err ' + c['res'][1] if c['res'][1] == 'RuntimeError' else ('ok' if 'A' in c['attempts'] else 'exc ' + c['res'][1])
+        exp = '%d %s %s' % (len(c['attempts']), res, c['delivered'] or '-')
+        key = (line, exp)
+        if key not in self.model_q:
+            self.model_q[key] = case
+
+    def compare_models(self):
+        ck = self.ck
+        if self.mr is None:
+            return
+        keys = sorted(self.model_q)
+        got = self.mr.run([k[0] for k in keys])
+        n = 0
+        for (line, exp), g in zip(keys, got):
+            if g != exp:
+                ck.correspondence_mismatch('retry-model', dict(self.model_q[(line, exp)], query=line, model=g, impl=exp))
+            else:
+                n += 1
+        ck.cov['retry_model_lines_agreeing'] = n
+        # skeleton membership
+        qs, idx = [], []
+        for (cid, entry, cls, named) in sorted(self.members):
+            qs.append('escapes %s %s %s' % (cid, entry, 'named' if named else 'any'))
+            idx.append((cid, entry, cls))
+        got = self.mr.run(qs) if qs else []
+        m = 0
+        for (cid, entry, cls), g in zip(idx, got):
+            pred = set() if g == '-' else set(g.split(','))
+            if g.startswith('?') or cls not in pred:
+                ck.correspondence_mismatch('skeleton-membership', {'class': cid, 'entry': entry, 'observed': cls, 'predicted': g})
+            else:
+                m += 1
+        ck.cov['skeleton_membership_checks'] = m
+
+    # -------------------------------------------------------------- sweeps
+    def positions(self, scn, base, quick):
+        n = len(base['trace'])
+        if scn.tier != 'sample' or not quick or n <= 24:
+            return list(range(n))
+        # long traces: every SECTOR SELECT exchange and its neighbours, the first and last commands, a random sample
+        keep = set(range(0, 4)) | set(range(n - 3, n))
+        for i, t in enumerate(base['trace']):
+            if t[0][:1] == b'\xC2' or t[1] == 's':
+                keep |= {i - 1, i, i + 1, i + 2}
+        rest = [i for i in range(n) if i not in keep]
+        keep |= set(self.ck.rng.sample(rest, min(10, len(rest))))
+        return sorted(i for i in keep if 0 <= i < n)
+
+    def baseline(self, scn):
+        ck = self.ck
+        base = run(scn, None)
+        o = base['obs']
+        cid = class_id(base['world'].tag)
+        if o[0] != 'val':
+            ck.violation(('unrelated-exception:%s@%s' % (o[1], o[3])) if o[0] == 'exc' else '%s:%s:%s:fault-free' % (o[0], cid, scn.method),
+                         'without any fault the operation ends with %s' % (o,),
+                         {'scenario': scn.name, 'class': cid, 'method': scn.method, 'plan': None, 'observed': list(map(str, o))})
+        again = run(scn, None)
+        if again['obs'] != o or again['memory'] != base['memory']:
+            ck.broken.append('scenario %s is not deterministic' % scn.name)
+        for c in base['calls']:
+            self.model_call(scn, c, {'scenario': scn.name, 'plan': None})
+            n = 3 if scn.ttype in ('tt1', 'tt3') else 1 + c['retries']
+            if n < 2 and 'A' in c['attempts']:
+                ck.violation('no-retry:%s:%s' % (cid, scn.method), 'an answered command is sent with a budget of one attempt',
+                             {'scenario': scn.name, 'command': c['cmd'].hex()})
+        ck.case((scn.name, 'baseline'), False)
+        return base
+
+    def sweep(self, scn, quick, kinds='TXP', bursts=(1, 2, 3, 4), modes=('req', 'rsp'), base=None):
+        ck = self.ck
+        base = base or self.baseline(scn)
+        bud = self.budget_table(scn, base)
+        for pos in self.positions(scn, base, quick):
+            for kind in kinds:
+                for burst in bursts:
+                    for mode in modes:
+                        plan = (pos, kind, burst, mode)
+                        r = run(scn, plan)
+                        self.check(scn, base, bud, plan, r)
+                        ck.case((scn.name, plan, VAR['round']), True,
+                                {'scenario': scn.name, 'plan': plan, 'observed': str(r['obs'])[:80]}
+                                if ck.cov['evaluations'] % 1499 == 0 else None)
+                        ck.count('%s/%s/b%d/%s' % (scn.ttype, kind, burst, r['obs'][0] if r['obs'] != base['obs'] else 'same'))
+        return base
+
+
+CORPUS = [  # minimised past failures: (scenario, plan)
+    ('t3/ndef-write', (0, 'T', 3, 'req')),          # attribute block unreadable -> None['writef']
+    ('lite/ndef-write', (0, 'X', 3, 'rsp')),
+    ('t2/sector/ndef-read', (65, 'X', 1, 'req')),   # SECTOR SELECT packet 2 garbled -> assert
+    ('t3/format', None),                            # format() with the default version
+    ('t3/is_present', (0, 'O', 3, 'req')),          # a CommunicationError of another class -> rsp unbound
+]
+
+
+def activation_cases(sw, quick):
+    """nfc.tag.activate under faults: a tag object or None, never an exception"""
+    ck = sw.ck
+    makers = [('t2', lambda: S.TlvClf(S.T2TSim(S.t2_memory(16, MSG))), lambda c: c.tag.target()),
+              ('ntag213', lambda: S.TlvClf(S.T2TSim(S.t2_memory(45, MSG), version=bytes.fromhex('0004040201000F03'))),
+               lambda c: c.tag.target()),
+              ('topaz', lambda: S.TlvClf(S.T1TSim(*S.t1_memory(False, MSG))), lambda c: c.tag.target()),
+              ('t3', lambda: S.T3Session(S.SimT3Tag(S.t3_blocks(6, MSG))), lambda c: c.target()),
+              ('t4', lambda: S.T4IsoClf(S.t4_card(MSG)), None)]
+    for name, mk, tgt in makers:
+        def act(plan):
+            inner = mk()
+            clf = S.FaultClf(inner)
+            clf.arm(plan)
+            if tgt is None:
+                t = nfc.clf.RemoteTarget("106A")
+                t.sens_res, t.sel_res, t.sdd_res = bytearray.fromhex("4403"), bytearray.fromhex("20"), bytearray.fromhex("04832F9A272D80")
+            else:
+                t = tgt(inner)
+            o = observe(lambda: nfc.tag.activate(clf, t))
+            return o, len(clf.trace)
+        o0, n = act(None)
+        for pos in range(n):
+            for kind in 'TXPBO':
+                for burst in (1, 2):
+                    o, _ = act((pos, kind, burst, 'req'))
+                    ck.case(('activate', name, pos, kind, burst), True)
+                    ok = o[0] == 'val' and (o[1] is None or (isinstance(o[1], tuple) and o[1][0] == 'tag'))
+                    if not ok:
+                        ck.violation('activate:%s:%s' % (o[0], o[1] if len(o) > 1 else ''),
+                                     'nfc.tag.activate under a %s error ends with %s' % (S.KIND_NAME[kind], (o,)),
+                                     {'scenario': 'activate/' + name, 'plan': [pos, kind, burst, 'req'], 'observed': list(map(str, o))})
+
+
 def main():
     ck = Check('C16')
-    dbg = os.environ.get('C16_DEBUG')
+    ck.trusted = ['Coq 8.16.1 kernel; vm_compute for the ExnCheck analysis on the regenerated tag skeletons; no native_compute',
+                  'translate/skel_c16.py (ast skeleton extractor for src/nfc/tag/*.py, fail-closed; its purity / primitive lists, '
+                  'receiver kinds, the hasattr / None-argument specialisations listed in the header of Gen/TagSkel.v)',
+                  'extraction: ExtrOcamlBasic only; extract/c16_run.ml driver; OCaml 4.13.1',
+                  'harness/sim/c16_faults.py (fault-injecting frontend, ISO-DEP coupling of the Type 4 card, NDEF-capable FeliCa Lite, '
+                  'Ultralight C, FeliCa Standard cards) on top of sim/tag_t1t2.py, tag_t3t4.py, isodep_card.py, auth_tags.py']
+    ck.assumptions = [
+        'budgets are those named by the property: three attempts for Type 1 and Type 3 commands, 1 + retries for Type 2 '
+        '(retries = 0 only for the passively acknowledged SECTOR SELECT packet 2), the ISO-DEP budget n_retry = min(int(1/FWT), 5) '
+        'for timeouts / transmission errors of Type 4 (Props/C12.v); a ProtocolError is unrecoverable in ISO-DEP (NFC Forum '
+        'Digital protocol) and is demanded to end as PROTOCOL_ERROR / documented None / False only',
+        'a burst = consecutive clf.exchange() calls failing with the same CommunicationError class, either before the tag '
+        '(command lost) or after it (tag executed the command, response lost)',
+        'the exact fault-free result is demanded when the burst is shorter than the attempts that remain for the command it hits, '
+        'the command is answered in the fault-free run, and the tag answers the re-sent command as it answered the first one '
+        '(a WRITE that changes the tag\'s own access rights or MAC write counter is answered differently the second time: counted '
+        'as retry-answered-differently-by-tag, weak postcondition only)',
+        'a timeout at SECTOR SELECT packet 2 IS the acknowledgement (passive ack) and can not be told from a lost packet',
+        'Retry model: the retry loops of Type 1/2/3 only; Type 4 exchanges are the ISO-DEP model of property C12',
+        'ExnCheck covers explicit exception flow; implicit exceptions of Python operations are what the sweep looks for',
+        'after an ISO-DEP exchange has failed (budget exhausted) the link state is the known finding of C12 (desync); '
+        'duplicates of APDUs after such a failure are not judged here']
+    ck.coq(gen=['TagSkel'], targets=['Skel/ExnCheck.vo', 'Model/Retry.vo', 'Proofs/Retry.vo', 'Gen/TagSkel.vo', 'Bridge/C16Skel.vo'],
+           props='C16')
+    mr = ck.model()
+    quick = ck.tier == 'quick'
+    sw = Sweep(ck, mr)
     scns = scenarios()
-    dist = {}
+    by_name = {s.name: s for s in scns}
+
+    if ck.replay:
+        rec = json.load(open(ck.replay))
+        c = rec.get('case', {})
+        scn = by_name.get(c.get('scenario'))
+        if scn is not None:
+            base = sw.baseline(scn)
+            if c.get('plan'):
+                plan = tuple(c['plan'])
+                sw.check(scn, base, sw.budget_table(scn, base), plan, run(scn, plan))
+        ck.finish(level='proof', rule='replay of one recorded injection')
+
+    # corpus first
+    for name, plan in CORPUS:
+        scn = by_name[name]
+        base = sw.baseline(scn)
+        if plan is not None and plan[0] < len(base['trace']):
+            sw.check(scn, base, sw.budget_table(scn, base), plan, run(scn, plan))
+            ck.case(('corpus', name, plan), True)
+
+    only = os.environ.get('C16_ONLY')
     for scn in scns:
-        if dbg and dbg != '1' and not scn.name.startswith(dbg):
+        if only and not scn.name.startswith(only):
             continue
-        base = run(scn, None)
-        n = len(base['trace'])
-        print('%-28s %3d cmds  %s' % (scn.name, n, str(base['obs'])[:100]))
-        for pos in range(n):
-            for kind in 'TXP':
-                for burst in (1, 2, 3, 4):
-                    for mode in ('req', 'rsp'):
-                        r = run(scn, (pos, kind, burst, mode))
-                        o = r['obs']
-                        if o == base['obs']:
-                            key = 'same'
-                        else:
-                            key = str(o[:3] if o[0] != 'val' else ('val', o[1] if not scn.lists else 'list'))[:90]
-                        k = (scn.name, kind, burst, key)
-                        dist[k] = dist.get(k, 0) + 1
-    for k in sorted(dist):
-        print(k, dist[k])
+        if quick and scn.tier == 'thorough':
+            continue
+        base = sw.sweep(scn, quick)
+        # beyond the property's quantifier: a CommunicationError that is none of the three named classes (Type 1/2/3):
+        # RuntimeError("unexpected ...") is the pinned behaviour, anything else (UnboundLocalError ...) is reported
+        if scn.ttype != 'tt4' and base['trace']:
+            sw.sweep(scn, True if quick else False, kinds='O' if quick else 'OB', bursts=(1, 3), modes=('req',), base=base)
+    activation_cases(sw, quick)
+
+    if not quick:
+        # variations: other message lengths / contents for the NDEF scenarios (new positions, other batch boundaries)
+        rng = ck.rng
+        for rnd in range(10):
+            global MSG, MSG2
+            VAR.update(round=rnd + 1, nbr=rng.choice((1, 2, 3, 4)), nbw=rng.choice((1, 2, 3)), t2pages=rng.choice((16, 20, 36)))
+            MSG = bytes([0xD1, 0x01, 0, 0x54, 0x02, 0x65, 0x6E])
+            n1 = rng.randrange(1, 30)
+            MSG = MSG[:2] + bytes([n1 + 3]) + MSG[3:] + bytes(rng.randrange(32, 127) for _ in range(n1))
+            n2 = rng.randrange(20, 44)
+            MSG2 = bytes([0xD1, 0x01, n2 + 3, 0x54, 0x02, 0x65, 0x6E]) + bytes(rng.randrange(32, 127) for _ in range(n2))
+            for scn in scenarios():
+                if only and not scn.name.startswith(only):
+                    continue
+                if 'ndef' in scn.name or 'format' in scn.name or 'protect' in scn.name:
+                    if scn.tier == 'sample':
+                        continue
+                    sw.sweep(scn, False)
+
+    sw.compare_models()
+    ck.cov['strict_cases'] = sw.nstrict
+    ck.cov['skeleton_left_out'] = 'see header of coq/Gen/TagSkel.v (LEFT OUT)'
+    ck.finish(level='proof',
+              rule='for each of the operation scenarios (read / write / NDEF read / NDEF write / is_present / format / protect / '
+                   'authenticate / dump / vendor commands on Type 1 (Topaz, Topaz-512, generic), Type 2 (generic, multi-sector, '
+                   'Ultralight, Ultralight C, Ultralight EV1, NTAG203/210/213/215, NTAG I2C, password protected NTAG213), Type 3 '
+                   '(generic, FeliCa Standard, FeliCa Lite, Lite-S, authenticated), Type 4A over ISO-DEP with FWI 8/10/11/14): '
+                   'every position of the recorded command sequence x {timeout, transmission, protocol} x burst 1..4 x '
+                   '{command lost, response lost}; plus another CommunicationError class for Type 1/2/3 and nfc.tag.activate '
+                   'under faults; non-trivial = every injection',
+              explanation='retry_spec / no_double_apply / op theorems hold for all scripts and budgets of the Retry model; '
+                          'tag_ops_closed is ExnCheck (sound, C13) evaluated on the skeletons of all public methods regenerated '
+                          'from the sources of this run; the sweep ties both to the running code')
 
 
 if __name__ == '__main__':
